@@ -41,8 +41,36 @@ pub fn install_panic_hook() {
         } else {
             "<non-string panic>".to_string()
         };
+        // the message may have been formatted from an ill-formed `str` of the code under test
+        let msg = String::from_utf8_lossy(msg.as_bytes()).into_owned();
         *PANIC_MSG.lock().unwrap() = format!("{} at {}", msg, loc);
     }));
+}
+
+/// With the crate's logging compiled in (`log-all`), a logger that accepts every level and FORMATS
+/// every record, so that the arguments of each logging statement are really evaluated (a panic in
+/// one of them is a panic of the call that logs).
+#[cfg(feature = "log-all")]
+mod logsink {
+    use std::fmt::Write;
+    pub static RECORDS: std::sync::atomic::AtomicU64 = std::sync::atomic::AtomicU64::new(0);
+    struct Sink;
+    impl log::Log for Sink {
+        fn enabled(&self, _: &log::Metadata) -> bool {
+            true
+        }
+        fn log(&self, record: &log::Record) {
+            let mut s = String::new();
+            let _ = write!(s, "{}", record.args());
+            RECORDS.fetch_add(1, std::sync::atomic::Ordering::Relaxed);
+        }
+        fn flush(&self) {}
+    }
+    static SINK: Sink = Sink;
+    pub fn install() {
+        let _ = log::set_logger(&SINK);
+        log::set_max_level(log::LevelFilter::Trace);
+    }
 }
 
 /// run one op with panics turned into data
@@ -156,8 +184,12 @@ fn replay(inp: &str, outp: &str, full: bool) -> i32 {
                 }
             }
             let mut o = o2.lock().unwrap();
+            #[cfg(feature = "log-all")]
+            let log_records = logsink::RECORDS.load(Ordering::Relaxed);
+            #[cfg(not(feature = "log-all"))]
+            let log_records = 0u64;
             writeln!(o, "{}", json!({"summary": true, "n": n, "compared": compared, "matched": matched,
-                "mismatched": mismatched, "toolerr": toolerr, "panics": panics})).unwrap();
+                "mismatched": mismatched, "toolerr": toolerr, "panics": panics, "log_records": log_records})).unwrap();
             o.flush().unwrap();
             d2.store(1, Ordering::SeqCst);
         })
@@ -188,6 +220,8 @@ fn replay(inp: &str, outp: &str, full: bool) -> i32 {
 
 fn main() {
     install_panic_hook();
+    #[cfg(feature = "log-all")]
+    logsink::install();
     let args: Vec<String> = std::env::args().collect();
     let code = match args.get(1).map(|s| s.as_str()) {
         Some("replay") if args.len() >= 4 => replay(&args[2], &args[3], args.iter().any(|a| a == "--full")),
@@ -199,6 +233,7 @@ fn main() {
             if cfg!(feature = "large-blobs") { f.push("large-blobs"); }
             if cfg!(feature = "third-party-payment") { f.push("third-party-payment"); }
             if cfg!(feature = "arbitrary") { f.push("arbitrary"); }
+            if cfg!(feature = "log-all") { f.push("log-all"); }
             println!("{}", json!(f));
             0
         }
